@@ -9,6 +9,13 @@ TRUSTED_COMMON = [
 NOT_DECIDED = {}
 ASSUMPTIONS = {}
 
+RELATIONAL = {}
+def REL(unit, fn, kind, type, compare='ALL', props=('C18',), unwind=None, **kw):
+    RELATIONAL.setdefault(unit, []).append({'fn': fn, 'kind': kind, 'type': type, 'compare': compare})
+    nbytes = kw.pop('nbytes', 64)
+    G('%s.rel.%s' % (unit, fn), list(props), unit, None, harness='h2_' + fn, loop_contracts=False, reach=['normal exit'],
+      flags=['--unwind', str(nbytes + 2), '--unwinding-assertions'], what='two-run relational check: serialised bytes are a function of the arguments only (uninitialised storage differs between the runs)', **kw)
+
 def G(id, props, unit, enforce=None, **kw):
     g = {'id': id, 'props': props if isinstance(props, list) else [props], 'unit': unit, 'enforce': enforce}
     g.update(kw)
@@ -133,8 +140,8 @@ for T_ in (2, 3, 4): huff_pi(T_, 'quick')
 for T_ in (5, 6): huff_pi(T_, 'thorough', timeout=3600)
 G('huff.ctor.T314', ['C15', 'C04'], 'huff', None, harness='h_huff_ctor', defines=['OP2_T=314'], reach=['normal exit'], loop_contracts=False,
   flags=['--unwind', '950', '--unwinding-assertions', '--max-field-sensitivity-array-size', '2000'], timeout=1800, no_standard_checks=True, what='constructor establishes WF for the 314-symbol tree the format uses (concrete execution inside CBMC; generated pointer checks off, WF of the result asserted)')
-G('huff.bounded314', ['C15', 'C04'], 'huff', None, harness='h_huff_bounded_from_initial', defines=['OP2_T=314', 'OP2_K=3'], reach=[], loop_contracts=False, tier='thorough',
-  flags=['--unwind', '950', '--unwinding-assertions', '--max-field-sensitivity-array-size', '2000'], timeout=3600, bounded='T=314, 3 updates with symbolic symbols from the initial tree', what='bounded stand-in for T=314')
+G('huff.bounded314', ['C15', 'C04'], 'huff', None, harness='h_huff_bounded_from_initial', defines=['OP2_T=314', 'OP2_K=1'], reach=[], loop_contracts=False, tier='thorough',
+  flags=['--unwind', '950', '--unwinding-assertions', '--max-field-sensitivity-array-size', '2000'], timeout=3600, bounded='T=314, 1 update with a symbolic symbol from the initial tree', what='bounded stand-in for T=314')
 claim('C15', 'Inductive step proved from an ARBITRARY well-formed tree (so for all histories) for 2..4 symbols in the quick tier and 5..6 in the thorough tier: UpdateCodeCount preserves the representation invariant WF (full binary prefix code over exactly the symbol set, sibling property), its result equals an independent reference update (Okumura LZHUF), the encoder bit string drives the decoder walk to the symbol leaf, and an update beyond counter capacity or with an out-of-range symbol is refused leaving the tree unchanged. Leaf accessors (GetChildNode, IsLeaf, GetNodeData, Verify*) are proved by contract for any tree size. The constructor is proved to establish WF for T = 2..6 and for T = 314.',
       'PI: the invariant step is proved per fixed symbol count T (loops fully unwound, unwinding assertions on); T = 314 inductive step is NOT decided (out of reach monolithically) - a bounded run (3 symbolic updates from the initial 314-symbol tree) stands in, labelled bounded. std::vector modelled as a view; allocation failure not modelled.')
 
@@ -199,3 +206,39 @@ sprh('PaletteHeader_CreatePaletteHeader', ['C10', 'C18'], replace=['SectionHeade
 sprh('PaletteHeader_Validate', ['C10', 'C11'], reach=EXC2, replace=['SectionHeader_Validate', 'SectionHeader_TotalLength'])
 sprh('ArtFile_VerifyImageIndexInBounds', ['C11'], reach=EXC2)
 sprh('ArtFile_ValidateImageMetadata', ['C10', 'C11'], reach=EXC2)
+
+# ---- C18: relational (two-run) determinism checks of every record constructor
+REL('maph', 'MapHeader_ctor', 'ctor', 'MapHeader', nbytes=20)
+REL('maph', 'Map_ctor', 'ctor', 'Map', compare=['versionTag', 'isSavedGame', 'widthInTiles', 'heightInTiles', 'clipRect.x1', 'clipRect.y1', 'clipRect.x2', 'clipRect.y2',
+                                                  'tiles.size', 'tilesetSources.size', 'tileMappings.size', 'terrainTypes.size', 'tileGroups.size'],
+    replay={'driver': 'map_replay.cpp', 'case': 'Map_ctor'})
+REL('bmph', 'ImageHeader_Create', 'value', 'ImageHeader', nbytes=40)
+REL('bmph', 'BmpHeader_Create', 'value', 'BmpHeader', nbytes=14)
+REL('sprh', 'SectionHeader_ctor2', 'ctor', 'SectionHeader', nbytes=8)
+REL('sprh', 'TilesetHeader_Create', 'value', 'TilesetHeader', nbytes=28)
+REL('sprh', 'PpalHeader_Create', 'value', 'PpalHeader', nbytes=20)
+REL('sprh', 'PaletteHeader_CreatePaletteHeader', 'value', 'PaletteHeader', nbytes=28)
+
+claim('C08', 'Bitmap geometry proved over the full 32-bit domain against an independent integer spec: CalcPixelByteWidth = ceil(w*bpp/8), CalculatePitch = smallest multiple of 4 >= row bytes, the pixel-size check accepts exactly pitch*|height| bytes and refuses negative widths and height INT32_MIN; ImageHeader::Validate / Create, BmpHeader::Create / signature checks, palette-size check and AbsoluteHeight proved by contract.',
+      'NOT decided yet by this check: ReadIndexed / WriteIndexed / WritePixels / InvertScanLines / CreateIndexed (container-level reader and writer round trip). Trusted: CBMC, extraction rules.')
+claim('C09', 'Custom tileset header constants and validators proved against an independent description of the format (PBMP / head 0x14, tag count 2, width 32, depth 8, flags 8 / PPAL 1048, head 4, tag count 1 / data 1024 / data 32*h): TilesetHeader::Create/Validate, PpalHeader::Create/Validate, the three section validators, CalculatePixelHeaderLength, CalculatePbmpSectionSize, ValidateTileset (8 bit, width 32, height multiple of 32 in either orientation); Peek proved not to move the position (K_R).',
+      'NOT decided yet: ReadCustomTileset / WriteCustomTileset byte framing and the picture round trip. One trusted constant: PBMP section length 1068 + 32*h cannot be confirmed against the game offline.')
+claim('C10', 'PRT cross-field rule check (ValidateImageMetadata: scan line = width rounded up to 4, palette index names an existing palette) proved with a loop contract for any number of images; canonical palette header (PPAL 1048 / head 4 / 1 / data 1024) and its validator proved; SectionHeader constructors/validator proved.',
+      'NOT decided yet: ReadFrame / WriteFrame framing, CountFrames / VerifyCountsMatchHeader, palette channel swap on read/write, structure round trip.')
+claim('C11', 'Validators that guard the loaders are proved total and exact (every header validator throws iff a checked field deviates; image index check refuses index >= count; pixel-size check refuses negative width / INT32_MIN height); all with CBMC memory-safety and arithmetic checks on.',
+      'NOT decided yet: the stream-driven loader bodies (ReadIndexed, ReadCustomTileset, ArtFile::Read, SpriteLoader::ExtractImage) and follow-up operations on their results; resource exhaustion.')
+claim('C18', 'Two-run relational checks (uninitialised storage is independent nondeterministic data in each run) prove that every byte of each record built by the record constructors is determined by the arguments: MapHeader, Map (all serialised members incl. clipRect), ImageHeader::Create, BmpHeader::Create, SectionHeader, TilesetHeader::Create, PpalHeader::Create, PaletteHeader::CreatePaletteHeader.',
+      'NOT decided yet: VOL/CLM record constructors, partially-assigning parsers (ReadFrame, ReadTilesetSources), writers byte-exact postconditions; input order / path spelling (std::sort, std::filesystem).')
+NOT_DECIDED.update({
+ 'C08': ['ReadIndexed/WriteIndexed/WritePixels/InvertScanLines/CreateIndexed: container-level code not yet under contract'],
+ 'C09': ['ReadCustomTileset/WriteCustomTileset framing and picture round trip', 'PBMP length constant vs the game (trusted)'],
+ 'C10': ['ReadFrame/WriteFrame, CountFrames, palette swap, round trip'],
+ 'C11': ['loader bodies and follow-up operations; resource exhaustion'],
+ 'C12': ['typed container/string helpers of Reader.h (Read(container&), Read<SizeType>, ReadNullTerminatedString)', 'FileReader against the std::ifstream model'],
+ 'C13': ['independence of two OS file descriptions (assumed)', 'archive member streams'],
+ 'C14': ['DynamicMemoryWriter, Write<SizeType>, Write(Reader&) copy loop, FileWriter::TranslateFlags'],
+ 'C15': ['inductive step for T = 314 (out of reach monolithically); bounded stand-in only'],
+ 'C16': ['widths above 2^10'],
+ 'C18': ['VOL/CLM records, parsers with partially assigned locals, writer byte-exactness, input order and path spelling'],
+ 'C19': ['every std::filesystem-based helper: PathsAreEqual laws, Append/GetFilename/GetDirectory/ChangeFileExtension/ExtensionMatches'],
+})
